@@ -330,10 +330,18 @@ class _Hooks:
 HOOKS = _Hooks()
 
 
-def static(flag):
-    """Try to turn a symbolic flag into a Python bool (entailment under assumptions & PC)."""
+def static(flag, cheap=False):
+    """Try to turn a symbolic flag into a Python bool (entailment under assumptions & PC).
+    cheap=True: only syntactic simplification (no solver call) - used where the flag is typically non-linear."""
     if isb(flag):
         return bool(flag)
+    if cheap:
+        f = z3.simplify(flag)
+        if z3.is_true(f):
+            return True
+        if z3.is_false(f):
+            return False
+        return flag
     if HOOKS.decide_static is not None:
         r = HOOKS.decide_static(flag)
         if r is not None:
@@ -534,6 +542,8 @@ class Q:
     def lift(x):
         if isinstance(x, Q):
             return x
+        if isinstance(x, np.ndarray):
+            raise Unsupported("cannot lift an ndarray to a symbolic real")
         if isinstance(x, SymBool):
             return x._asq()
         if isinstance(x, (bool, np.bool_)):
@@ -554,7 +564,7 @@ class Q:
             return Q(Fraction(0), nan=True)
         if hasattr(x, "_asq"):
             return x._asq()
-        raise Unsupported("cannot lift %r (%s) to a symbolic real" % (x, type(x).__name__))
+        raise Unsupported("cannot lift a %s to a symbolic real" % type(x).__name__)
 
     NAN = None
 
@@ -814,7 +824,8 @@ class Q:
         if a.rn is not None and a.absof is not None:
             # sqrt(|x|): fall back to an if-then-else form of |x| (solver stage)
             x = a.absof
-            return Q.ite(x._lt(Q.lift(0)), -x, x).sqrt()
+            lin = (isinstance(x.n, Lin) or isc(x.n)) and (isinstance(x.d, Lin) or isc(x.d))
+            return Q.ite(x._lt(Q.lift(0)), -x, x, cheap=not lin).sqrt()
         if a.rn is not None:
             raise Unsupported("sqrt of a radical")
         if isc(a.n) and isc(a.d) and a.d != 0:
@@ -834,7 +845,7 @@ class Q:
         if a.rn is None:
             if isc(a.n) and isc(a.d):
                 return Q(abs(Fraction(a.n)), abs(Fraction(a.d)), None, None, a.nan, a.inf, 1)
-            nonneg = static(bor(a.nan, a.inf, bnot(a._qneg())))
+            nonneg = static(bor(a.nan, a.inf, bnot(a._qneg())), cheap=not (isinstance(a.n, Lin) or isc(a.n)) or not (isinstance(a.d, Lin) or isc(a.d)))
             if isb(nonneg) and nonneg:
                 return Q(a.n, a.d, None, None, a.nan, a.inf, 1)
             # |q| = sqrt(q^2): stays in normal form (no ite)
@@ -1007,14 +1018,14 @@ class Q:
 
     # ---- if-then-else --------------------------------------------------------
     @staticmethod
-    def ite(c, a, b):
+    def ite(c, a, b, cheap=False):
         """c ? a : b (c: bool | z3 BoolRef | SymBool)"""
         if isinstance(c, SymBool):
             c = c.e
         if isb(c):
             return Q.lift(a if c else b)
         a, b = Q.lift(a), Q.lift(b)
-        c2 = static(c)
+        c2 = static(c, cheap=cheap)
         if isb(c2):
             return a if c2 else b
         if a.rn is None and b.rn is None:
@@ -1109,16 +1120,22 @@ class PyReal(Q):
         return r
 
     def __add__(self, o):
+        if isinstance(o, np.ndarray):
+            return NotImplemented
         r = Q.__add__(self, o)
-        return r if r is NotImplemented or isinstance(o, np.ndarray) else PyReal.of(r)
+        return r if r is NotImplemented else PyReal.of(r)
 
     __radd__ = __add__
 
     def __sub__(self, o):
+        if isinstance(o, np.ndarray):
+            return NotImplemented
         r = Q.__sub__(self, o)
         return r if r is NotImplemented else PyReal.of(r)
 
     def __mul__(self, o):
+        if isinstance(o, np.ndarray):
+            return NotImplemented
         r = Q.__mul__(self, o)
         return r if r is NotImplemented else PyReal.of(r)
 
